@@ -51,6 +51,9 @@ func c08World() map[string]spec.V {
 	}
 	st.M = m
 	w["st"] = st
+	// two records of different (unnamed) struct types with the same field names in different positions
+	w["an1"] = spec.V{K: "dyn", L: []spec.V{{K: "string", S: "bob", N: "Name"}, {K: "int", S: "41", N: "Age"}}}
+	w["an2"] = spec.V{K: "dyn", L: []spec.V{{K: "int", S: "30", N: "Age"}, {K: "string", S: "eve", N: "Name"}, {K: "float64", S: "2.5", N: "Score"}}}
 	return w
 }
 
@@ -446,7 +449,7 @@ func c08Battery() []string {
 	// rejected texts (each expects a different token / message): their errors are part of the outcome
 	out = append(out, "[1, 2", "(1 + 2", "f(1 2)", "a ? b", "a.", "'open", "1_", "1e", "a # b", "[1,]", "f(a...b)", "x = ", "a b", "1 +\n", "g(1 ? 2 ]")
 	out = append(out, "fnV(1,2,3)", "fnSV('k', 1, 'a', null)", "fnA([1,[2]])", "fnC(2.5)", "fn0() + 1", "[m.b.c, st.Name, mi.a, arr]", "$q = 2.5, [round($q), roundBank($q), $q]",
-		"typeof ctx", "[1,2,3] , 'x' + 2.50", "i64 + 1", "u64 % 10", "f64 * 3", "[1e400, 1e-400, 5e-324 + 0]", "this.s + this.i")
+		"[an1.Age, an1.Name]", "[an2.Name, an2.Age, an2.Score]", "an1.Name + an2.Name", "typeof ctx", "[1,2,3] , 'x' + 2.50", "i64 + 1", "u64 % 10", "f64 * 3", "[1e400, 1e-400, 5e-324 + 0]", "this.s + this.i")
 	return out
 }
 
